@@ -501,7 +501,11 @@ def c01(ctx):
         ctx.model("c01-" + name, c, ["AuthInv", "AgreeInv"])
         ctx.export_tamper_validate("c01-ake-" + name, c, "ake", per_msg=24 if q else 0, allpos=not q, maxsched=8 if q else 40)
         ctx.export_tamper_validate("c01-aker-" + name, c, "none", per_msg=6 if q else 20, maxsched=6 if q else 30, replace=True)
-    ctx.model("c01-bag", dict(PolA=3, PolB=3, Prelude=[dict(a="Query", p="A")], NetMode="bag", MaxFlight=4, MaxDup=2, MaxDrop=1, MaxQuery=1), ["AuthInv", "AgreeInv"])
+    ctx.model("c01-bag", dict(PolA=3, PolB=3, Prelude=[dict(a="Query", p="A")], NetMode="bag", MaxFlight=4, MaxDup=2, MaxDrop=1, MaxQuery=1), ["AuthInv", "AgreeInv", "SessStable"])
+    rp, rprel = STARTS["refresh"]
+    ctx.model("c01-refresh", dict(rp, Prelude=rprel, MaxFlight=4, MaxQuery=1), ["AuthInv", "AgreeInv", "SessStable"])
+    # non-vacuity: with the deviation the code has (known finding D20b) the model violates SessStable
+    ctx.model_expect_violation("c01-refresh-earlyssid", dict(rp, Prelude=rprel, MaxFlight=4, MaxQuery=1), ["SessStable"], kf={"KF_EarlySSID": True})
     ctx.attack_catalogue("ake")
 
 
